@@ -178,7 +178,9 @@ func solveCovers(qs []*Query, dir string, workers int) {
 				os.WriteFile(file, []byte(q.SMT("proof")), 0o644)
 				r := runSolver(context.Background(), solvers[0], file, 1)
 				q.Status, q.Solver, q.TimeS = r.status, r.solver, r.secs
-				os.Remove(file)
+				if os.Getenv("GOVC_KEEP") == "" {
+					os.Remove(file)
+				}
 			}
 		}()
 	}
